@@ -45,6 +45,13 @@ type Snap struct {
 	MustHave int // model bytes that must be durable at this point (-1: no claim)
 }
 
+// CallRes is the result of one API call.
+type CallRes struct {
+	What    string
+	Err     string // "" = nil
+	Faulted bool   // the underlying writer had already returned its fault when the call began
+}
+
 // Outcome is what running a script produced.
 type Outcome struct {
 	Model     []byte
@@ -54,12 +61,13 @@ type Outcome struct {
 	Snaps     []Snap
 	CloseErr  error
 	Closed    bool
-	Errs      []string // unexpected API errors / wrong return values
-	APIErrs   []string // every error an API call returned (expected when a fault is planned)
-	Faulted   bool     // the underlying writer delivered its fault
-	ErrAfter  int      // index of the first op that reported an error (-1 none)
-	Overflow  bool     // a member did not fit into 64 KiB (ErrBlockOverflow)
-	Hung      string   // non-empty: the call that did not return
+	Errs      []string  // unexpected API errors / wrong return values
+	APIErrs   []string  // every error an API call returned (expected when a fault is planned)
+	Faulted   bool      // the underlying writer delivered its fault
+	ErrAfter  int       // index of the first op that reported an error (-1 none)
+	Calls     []CallRes // every API call in order
+	Overflow  bool      // a member did not fit into 64 KiB (ErrBlockOverflow)
+	Hung      string    // non-empty: the call that did not return
 }
 
 type issuedWriter struct {
@@ -118,6 +126,13 @@ func (s Script) Run(callTimeout time.Duration) *Outcome {
 	ApplyHdr(w, s.Hdr)
 	bad := func(format string, a ...any) { o.Errs = append(o.Errs, fmt.Sprintf(format, a...)) }
 	chk := func(what string, err error) {
+		cr := CallRes{What: what}
+		if err != nil {
+			cr.Err = err.Error()
+		}
+		if what != "Next" {
+			o.Calls = append(o.Calls, cr)
+		}
 		if err == nil {
 			return
 		}
